@@ -782,3 +782,75 @@ func c11OnlyCheckDispatches(c *Ctx, check *ssa.Function) {
 		c.ok(construct, check.Pos(), fmt.Sprintf("the handlers of the %d kinds with a case in the matcher's callbacks are called from check only", n))
 	}
 }
+
+// ---- C09.AST: writes into containers held by AST nodes ----
+
+// c09AstContainers: besides field stores, a rule can change the AST by writing an element of a slice or map that an AST
+// node holds (`n.RunsOn.Labels[i] = x`, `delete(n.Env.Vars, k)`, `sort.Slice(n.Steps, ...)`), also after the container was
+// handed on as a parameter. Such a write is reported unless the node holding the container was created on the spot.
+// Returns the number of writes looked at and the number reported.
+func c09AstContainers(c *Ctx, astTypes map[string]bool) (int, int) {
+	p := c.P
+	n, nbad := 0, 0
+	for _, fn := range p.Funcs {
+		if isParserFunc(fn) || !inModule(fn) || fn.Blocks == nil {
+			continue
+		}
+		eachInstr(fn, func(_ *ssa.BasicBlock, _ int, in ssa.Instruction) {
+			var cont ssa.Value
+			kind := ""
+			switch x := in.(type) {
+			case *ssa.Store:
+				if ia, ok := x.Addr.(*ssa.IndexAddr); ok {
+					cont, kind = ia.X, "element assignment"
+				}
+			case *ssa.MapUpdate:
+				if ld, ok := x.Map.(*ssa.UnOp); ok {
+					if _, direct := ld.X.(*ssa.FieldAddr); direct {
+						return // a map loaded from a field on the spot: judged with the field stores
+					}
+				}
+				cont, kind = x.Map, "map write"
+			case ssa.CallInstruction:
+				cc := x.Common()
+				name := calleeFullName(cc)
+				if b, ok := cc.Value.(*ssa.Builtin); ok {
+					name = "builtin." + b.Name()
+				}
+				if strings.HasPrefix(name, "sort.") || strings.HasPrefix(name, "slices.") || name == "builtin.delete" || name == "builtin.copy" {
+					if idx, ok := mutExtern[name]; ok && idx < len(cc.Args) {
+						cont, kind = cc.Args[idx], name
+					}
+				}
+			}
+			if cont == nil {
+				return
+			}
+			for _, h := range holdersOf(p, cont, false) {
+				if !astTypes[pointeeName(h.Type())] {
+					continue
+				}
+				n++
+				root := h
+				for {
+					switch r := root.(type) {
+					case *ssa.FieldAddr:
+						root = r.X
+						continue
+					case *ssa.IndexAddr:
+						root = r.X
+						continue
+					}
+					break
+				}
+				if _, isAlloc := root.(*ssa.Alloc); isAlloc {
+					continue
+				}
+				nbad++
+				c.bad(FuncName(fn)+"|"+kind+" in a container held by "+pointeeName(h.Type()), in.Pos(), "a rule writes into a slice or map that belongs to the workflow AST: later rules, jobs and steps read the modified node")
+				return
+			}
+		})
+	}
+	return n, nbad
+}
